@@ -51,17 +51,30 @@ def check_toplevel(ctx, led, rule="C19.toplevel"):
                 continue
             if isinstance(st, (ast.Assign, ast.AnnAssign)):
                 targets = st.targets if isinstance(st, ast.Assign) else [st.target]
+                val = st.value
+                own_names = set(m.assigns)
                 if all(isinstance(t, ast.Name) for t in targets):
-                    # value must be a literal table / constant expression (no call with side effects)
-                    val = st.value
+                    # value: a literal table, or a pure expression over constants (computed table)
                     try:
                         ctx.ce.eval(m, val, rule)
                         continue
                     except AnalysisError as e:
                         if isinstance(val, ast.Name):
                             continue  # alias such as string_input = input
-                        led.violation(rule, ck, where, "module-level binding is not a constant expression: %s" % e.message)
+                        why = impure(ctx, m, val)
+                        if why is None:
+                            continue
+                        led.violation(rule, ck, where, "module-level binding runs %s at import time" % why)
                         continue
+                # initialisation of an object created in this very module (TABLE[k] = v)
+                roots = []
+                for t in targets:
+                    b = t
+                    while isinstance(b, (ast.Subscript, ast.Attribute)):
+                        b = b.value
+                    roots.append(b.id if isinstance(b, ast.Name) else None)
+                if all(r in own_names for r in roots) and impure(ctx, m, val) is None:
+                    continue
                 led.violation(rule, ck, where, "module-level store into %s" % norm_src(targets[0]))
                 continue
             led.violation(rule, ck, where, "module-level statement executes at import time: %s" % type(st).__name__)
@@ -83,6 +96,45 @@ def check_toplevel(ctx, led, rule="C19.toplevel"):
                     continue
                 led.violation(rule, ck, m.where(st), "class body statement %s" % type(st).__name__)
     return n
+
+
+PURE_CALLS = set(
+    "dict list tuple set frozenset sorted len str int float min max sum zip enumerate range any all map filter "
+    "OrderedDict D Decimal reversed abs bool repr".split()
+)
+PURE_METHODS = set(
+    "upper lower replace format join items keys values get split strip lstrip rstrip startswith endswith title "
+    "capitalize copy index count".split()
+)
+
+
+def impure(ctx, m, expr):
+    """None when the expression only builds values from constants with pure builtins, str/dict
+    methods and side-effect-free package functions; otherwise a description of the impure call."""
+    E = get_effects(ctx)
+    for n in ast.walk(expr):
+        if isinstance(n, ast.Call):
+            f = n.func
+            if isinstance(f, ast.Name):
+                if f.id in PURE_CALLS:
+                    continue
+                r = ctx.repo.resolve_global(m, f.id)
+                if r is not None and r[0] == "func":
+                    effs = E.effects_of([r[1].qualname], kinds=("self_write", "global_write", "ambient", "io", "cache", "global_stmt"))
+                    if not effs:
+                        continue
+                    return "%s(), which has side effects (%s)" % (f.id, effs[0].what)
+                if r is not None and r[0] == "ext" and r[1] in ("collections.OrderedDict", "ordereddict.OrderedDict", "decimal.Decimal"):
+                    continue
+                return "a call of %s" % f.id
+            if isinstance(f, ast.Attribute):
+                if f.attr in PURE_METHODS:
+                    continue
+                return "a call of .%s()" % f.attr
+            return "a computed call"
+        if isinstance(n, (ast.Yield, ast.YieldFrom, ast.Await, ast.NamedExpr)):
+            return "a %s expression" % type(n).__name__
+    return None
 
 
 def G_names(h):
